@@ -600,3 +600,49 @@ def canonical_form_vs_max_len(which: int, hi: Optional[int]) -> bool:
         except ValueError:
             return hold("idem", False, lambda: "accepted result %r is rejected when validated again (max_len=%r)" % (r, hi))
         return hold("idem", r2 == r, "not idempotent")
+
+
+# --------------------------------------------------------------------------- digest values and the field's algorithm
+HASHES = ("md5", "sha1", "sha224", "sha256", "sha384", "sha512")
+
+
+@obligation(prop="C05", sites=("accept", "reject"), budget={"quick": 60, "thorough": 120},
+            encodes=["cincoconfig.fields.secure_field.ChallengeField._validate",
+                     "cincoconfig.fields.secure_field.ChallengeField.to_basic",
+                     "cincoconfig.fields.secure_field.ChallengeField.to_python"],
+            what="ChallengeField(algorithm a) given a DigestValue made with algorithm b (all 36 pairs; text or "
+                 "byte-string secret): an ACCEPTED value survives to_python(to_basic(.)) as an equal value that "
+                 "still verifies the secret and is accepted again (the on-disk form holds salt and digest only)")
+def challenge_digest_algorithm(ai: int, bi: int, as_bytes: bool) -> bool:
+    """
+    pre: 0 <= ai < 6 and 0 <= bi < 6
+    post: _
+    """
+    import hashlib
+    from cincoconfig.fields.secure_field import DigestValue
+    from vf.hlib.stubs import untraced
+    a = b = HASHES[0]
+    for i in range(6):
+        if ai == i:
+            a = HASHES[i]
+        if bi == i:
+            b = HASHES[i]
+    secret = b"s3cret" if as_bytes else "s3cret"
+    with untraced():
+        cfg = _cfg()
+        field = ChallengeField(a)
+        value = DigestValue.create(secret, getattr(hashlib, b))
+        try:
+            got = field.validate(cfg, value)
+        except ValueError:
+            return hold("reject", a != b, "a digest value of the field's own algorithm was rejected")
+        back = field.to_python(cfg, field.to_basic(cfg, got))
+        ok = True
+        try:
+            back.challenge(secret)
+        except ValueError:
+            ok = False
+        hold("accept", ok and back == got,
+             lambda: "accepted %s digest in a %s field does not survive its on-disk form (verifies: %r)" % (b, a, ok))
+        hold("accept", field.validate(cfg, back) == back, "reloaded value not accepted again")
+    return True
